@@ -1,1 +1,108 @@
+//! Mapping side of the harness: model of mapping sets / diffs independent of quill ([`model`]), seeded
+//! generators ([`gen`]), invariant monitor for live quill trees ([`invariant`]), own descriptor grammar ([`desc`]).
+//!
+//! Typical use in a monitor:
+//! ```ignore
+//! let m = maps::gen::gen_maps(rng, &GenCfg::default().with_n(3));
+//! let q = maps::model::to_quill::<3, ()>(&m, &mut Ins::Shuffle(rng)).expect("expressible");
+//! let out = common::guard(|| q.some_action(..));
+//! maps::watch(rep, "C08", "reorder", &out, || json!({"input": m.render()}));
+//! let got = maps::model::from_quill(&out);
+//! ```
+pub mod desc;
+pub mod gen;
+pub mod invariant;
+pub mod model;
 
+pub use gen::{CommentClass, GenCfg, ParamSrc};
+pub use model::{from_quill, from_quill_diff, to_quill, to_quill_diff, Act, Class, ClassDiff, Field, FieldDiff, Ins, Maps, MapsDiff, Method, MethodDiff, Param, ParamDiff};
+
+use common::{json, Report, Rng, Value};
+use quill::tree::mappings::Mappings;
+
+/// Runs the invariant monitor on `m` and records each kind of problem as a violation
+/// `"<prop> invariant after <api>: <kind>"`; `input` is evaluated only when there is something to report.
+/// Returns true when the invariant holds.
+pub fn watch<const N: usize, Ns>(rep: &mut Report, prop: &str, api: &str, m: &Mappings<N, Ns>, input: impl FnOnce() -> Value) -> bool {
+    rep.count("invariant.walks");
+    let p = invariant::problems(m);
+    if p.is_empty() { return true; }
+    let inp = input();
+    for (kind, inst) in p { rep.violation(format!("{prop} invariant after {api}: {kind}"), json!({"where": inst, "input": inp})); }
+    false
+}
+
+/// Self-test of this crate (run by monitors at start-up; `Err` = harness error): for `cases` generated sets per
+/// N in {2,3,4}: the model is self-consistent, `from_quill(to_quill(m)) == m` for three insertion orders, the
+/// invariant monitor is silent on the built tree and flags a deliberately broken one; diffs round-trip too.
+pub fn self_test(seed: u64, cases: usize) -> Result<(), String> {
+    fn one<const N: usize>(rng: &mut Rng, cfg: &GenCfg) -> Result<(), String> {
+        let m = gen::gen_maps(rng, &cfg.clone().with_n(N));
+        let pr = m.check();
+        if !pr.is_empty() { return Err(format!("generated model inconsistent: {pr:?}\n{}", m.render())); }
+        for which in 0..3 {
+            let mut r2 = rng.fork();
+            let mut ins = match which { 0 => Ins::Sorted, 1 => Ins::Reverse, _ => Ins::Shuffle(&mut r2) };
+            let q = to_quill::<N, ()>(&m, &mut ins).map_err(|e| format!("to_quill failed: {e:#}\n{}", m.render()))?;
+            let inv = invariant::check(&q);
+            if !inv.is_empty() { return Err(format!("invariant monitor reports a freshly built tree: {inv:?}")); }
+            let back = from_quill(&q);
+            if back != m { return Err(format!("from_quill(to_quill(m)) != m\n--- m\n{}--- back\n{}", m.render(), back.render())); }
+            if which == 2 {
+                // canary: break the key of the first class / the index of the first parameter; the monitor must notice
+                let mut broken = q.clone();
+                if broken.classes.len() >= 2 {
+                    let other = broken.classes.get_index(1).map(|(_, c)| c.info.names.clone()).unwrap();
+                    broken.classes.get_index_mut(0).unwrap().1.info.names = other;
+                    if invariant::check(&broken).is_empty() { return Err("invariant monitor misses a class whose key != first name".into()); }
+                }
+                let mut broken = q.clone();
+                let mut did = false;
+                for c in broken.classes.values_mut() { for me in c.methods.values_mut() { for p in me.parameters.values_mut() { p.info.index += 1; did = true; } } }
+                if did && invariant::check(&broken).is_empty() { return Err("invariant monitor misses a parameter whose key != index".into()); }
+            }
+        }
+        Ok(())
+    }
+    let mut rng = Rng::new(seed ^ 0x6d61_7073);
+    let cfgs = [GenCfg::default(), GenCfg::tame(), GenCfg { comments: CommentClass::Hostile, fully_named: true, ..GenCfg::default() }, GenCfg { unique_per_namespace: false, ..GenCfg::default() }];
+    for i in 0..cases {
+        let cfg = &cfgs[i % cfgs.len()];
+        one::<2>(&mut rng, cfg)?; one::<3>(&mut rng, cfg)?; one::<4>(&mut rng, cfg)?;
+        let d = gen::gen_diff(&mut rng, cfg);
+        let mut r2 = rng.fork();
+        let q = to_quill_diff(&d, &mut Ins::Shuffle(&mut r2)).map_err(|e| format!("to_quill_diff failed: {e:#}\n{}", d.render()))?;
+        if from_quill_diff(&q) != d { return Err(format!("from_quill_diff(to_quill_diff(d)) != d\n{}", d.render())); }
+    }
+    // descriptor grammar: printing a parsed descriptor is the identity; mapping with the identity too
+    for d in ["I", "[[LA$B;", "(LL;[LLL;J)V", "()La/b/C;", "V"] {
+        if desc::try_map_desc(d, |c| c.to_string()).as_deref() != Some(d) { return Err(format!("desc identity map failed on {d}")); }
+    }
+    for d in ["L;", "La//b;", "(V)V", "[V", "LA", "()"] { if desc::parse_any(d).is_some() { return Err(format!("desc grammar accepts {d}")); } }
+    Ok(())
+}
+
+#[cfg(test)]
+mod tests {
+    #[test]
+    fn round_trip_1000() { super::self_test(1, 1000).unwrap(); }
+    #[test]
+    fn generator_covers_domain() {
+        use super::*;
+        let mut rng = Rng::new(7);
+        let (mut nested, mut orphan, mut nosrc, mut uni, mut absent, mut multi, mut ph, mut big) = (0, 0, 0, 0, 0, 0, 0, 0);
+        for _ in 0..3000 {
+            let m = gen::gen_maps(&mut rng, &GenCfg::default());
+            if m.classes.len() > 8 { big += 1; }
+            for (k, c) in &m.classes {
+                if let Some((o, _)) = k.rsplit_once('$') { nested += 1; if !o.is_empty() && !m.classes.contains_key(o) { orphan += 1; } }
+                if c.names.iter().any(|n| n.is_none()) { absent += 1; }
+                if c.names.iter().flatten().any(|n| !n.is_ascii()) { uni += 1; }
+                if c.names.iter().flatten().any(|n| n.starts_with("C_") || n.starts_with("net/minecraft/unmapped/C_")) { ph += 1; }
+                if c.comment.as_deref().is_some_and(|c| c.contains("\n\n")) { multi += 1; }
+                for me in c.methods.values() { for p in me.params.values() { if p.names[0].is_none() { nosrc += 1; } } }
+            }
+        }
+        assert!(nested > 100 && orphan > 20 && nosrc > 100 && uni > 100 && absent > 100 && multi > 20 && ph > 100 && big > 10, "{:?}", (nested, orphan, nosrc, uni, absent, multi, ph, big));
+    }
+}
